@@ -14,26 +14,40 @@ Definition unb (s : cstate) (us : list use) := filter (fun u : use => negb (amem
 
 (* what a checking step does to the name bookkeeping, all other diagnostics and fields ignored:
    the only name diagnostics it adds are the unbound uses, in order *)
+(* error-severity diagnostics are never retracted *)
+Definition mono (s s' : cstate) : Prop := (errors_count (cs_diags s) <= errors_count (cs_diags s'))%nat.
+
 Definition vstep (us : list use) (s s' : cstate) : Prop :=
-  udiags s' = udiags s ++ unbd (unb s us) /\ cs_declared s' = cs_declared s /\ cs_unused s' = rm_uses us (cs_unused s).
+  udiags s' = udiags s ++ unbd (unb s us) /\ cs_declared s' = cs_declared s /\ cs_unused s' = rm_uses us (cs_unused s)
+  /\ mono s s'.
 
 Definition vsame (s s' : cstate) : Prop :=
-  udiags s' = udiags s /\ cs_declared s' = cs_declared s /\ cs_unused s' = cs_unused s.
+  udiags s' = udiags s /\ cs_declared s' = cs_declared s /\ cs_unused s' = cs_unused s /\ mono s s'.
 
-Lemma vsame_refl s : vsame s s. Proof. repeat split. Qed.
+Lemma vsame_refl s : vsame s s. Proof. repeat split. apply le_n. Qed.
 Lemma vsame_trans a b c : vsame a b -> vsame b c -> vsame a c.
-Proof. intros (A1 & A2 & A3) (B1 & B2 & B3). repeat split; congruence. Qed.
+Proof. intros (A1 & A2 & A3 & A4) (B1 & B2 & B3 & B4). repeat split; try congruence. exact (Nat.le_trans _ _ _ A4 B4). Qed.
 
 Lemma vstep_of_same s s' : vsame s s' -> vstep [] s s'.
-Proof. intros (A & B & C). repeat split; [unfold unb, unbd; cbn [filter map]; now rewrite app_nil_r|exact B|exact C]. Qed.
+Proof. intros (A & B & C & D). repeat split; [unfold unb, unbd; cbn [filter map]; now rewrite app_nil_r|exact B|exact C|exact D]. Qed.
 
 Lemma vstep_app us1 us2 s1 s2 s3 : vstep us1 s1 s2 -> vstep us2 s2 s3 -> vstep (us1 ++ us2) s1 s3.
 Proof.
-  intros (A1 & B1 & C1) (A2 & B2 & C2). repeat split.
+  intros (A1 & B1 & C1 & D1) (A2 & B2 & C2 & D2). repeat split.
   - rewrite A2, A1. unfold unb, unbd. rewrite B1, filter_app, map_app, app_assoc. reflexivity.
   - congruence.
   - rewrite C2, C1. unfold rm_uses. now rewrite fold_left_app.
+  - exact (Nat.le_trans _ _ _ D1 D2).
 Qed.
+
+Lemma errors_count_app a b : errors_count (a ++ b) = (errors_count a + errors_count b)%nat.
+Proof. unfold errors_count. now rewrite filter_app, app_length. Qed.
+
+Lemma mono_emit r k s : mono s (emit r k s).
+Proof. unfold mono. cbn [emit cs_diags]. rewrite errors_count_app. lia. Qed.
+
+Lemma mono_extends s s' : extends_diags s s' -> mono s s'.
+Proof. intros (D & H & _). unfold mono. rewrite H, errors_count_app. lia. Qed.
 
 Lemma vstep_same_l us s0 s s' : vsame s0 s -> vstep us s s' -> vstep us s0 s'.
 Proof. intros H1 H2. exact (vstep_app [] us _ _ _ (vstep_of_same _ _ H1) H2). Qed.
@@ -47,7 +61,7 @@ Proof. apply filter_app. Qed.
 
 Lemma vsame_emit r k s : not_unbound k -> vsame s (emit r k s).
 Proof.
-  intros Hk. repeat split. unfold udiags. cbn [emit cs_diags]. rewrite name_diags_app.
+  intros Hk. repeat split; [|apply mono_emit]. unfold udiags. cbn [emit cs_diags]. rewrite name_diags_app.
   unfold name_diags at 2. cbn [filter d_kind]. rewrite Hk. now rewrite app_nil_r.
 Qed.
 
@@ -62,12 +76,14 @@ Proof.
   - (* variable *)
     cbv zeta in H. destruct (alookup name (cs_declared s)) as [d0|] eqn:Ed.
     + assert (G : forall s2, udiags s2 = udiags s -> cs_declared s2 = cs_declared s -> cs_unused s2 = aremove name (cs_unused s) ->
-                  vstep [(name, r)] s s2).
-      { intros s2 A B C. unfold vstep, unb, unbd. cbn [filter fst]. unfold amem. rewrite Ed. cbn [negb map]. repeat split; try assumption. now rewrite app_nil_r. }
-      destruct (vd_type d0) as [[? ty]|]; [destruct (is_type_allowed ty)|]; try (injection H as <-; apply G; reflexivity).
-      destruct (assert_has_type_spec _ _ _ _ _ H) as [[-> _]| ->]; [apply G; reflexivity|].
-      apply G; try reflexivity. unfold udiags. cbn [emit cs_diags]. rewrite name_diags_app. cbn. now rewrite app_nil_r.
-    + injection H as <-. unfold vstep, unb, unbd. cbn [filter fst]. unfold amem. rewrite Ed. cbn [negb map fst snd]. repeat split.
+                  mono s s2 -> vstep [(name, r)] s s2).
+      { intros s2 A B C D. unfold vstep, unb, unbd. cbn [filter fst]. unfold amem. rewrite Ed. cbn [negb map]. repeat split; try assumption. now rewrite app_nil_r. }
+      destruct (vd_type d0) as [[? ty]|]; [destruct (is_type_allowed ty)|]; try (injection H as <-; apply G; try reflexivity; apply le_n).
+      destruct (assert_has_type_spec _ _ _ _ _ H) as [[-> _]| ->]; [apply G; try reflexivity; apply le_n|].
+      apply G; try reflexivity.
+      * unfold udiags. cbn [emit cs_diags]. rewrite name_diags_app. cbn. now rewrite app_nil_r.
+      * unfold mono. cbn [emit cs_diags]. rewrite errors_count_app. lia.
+    + injection H as <-. unfold vstep, unb, unbd. cbn [filter fst]. unfold amem. rewrite Ed. cbn [negb map fst snd]. repeat split; [|apply mono_emit].
       unfold udiags. cbn [emit cs_diags]. rewrite name_diags_app. reflexivity.
   - destruct (assert_has_type (Some r) t TypeMonetary s) as [s1| |] eqn:E1; cbn [bind] in H; try discriminate.
     destruct (check_expression a TypeAsset s1) as [s2| |] eqn:E2; cbn [bind] in H; try discriminate.
@@ -81,10 +97,10 @@ Proof.
       eapply vstep_same_l; [eapply vsame_assert; exact E0|]. eapply vstep_app; [eapply IHl; exact E1|eapply IHr; exact H].
 Qed.
 
-Lemma vsame_set_uis b s : vsame s (set_unbounded_in_send b s). Proof. repeat split. Qed.
-Lemma vsame_set_em l s : vsame s (set_emptied l s). Proof. repeat split. Qed.
-Lemma vsame_set_us b s : vsame s (set_unbounded_send b s). Proof. repeat split. Qed.
-Lemma vsame_add_fnres r b s : vsame s (add_fnres r b s). Proof. repeat split. Qed.
+Lemma vsame_set_uis b s : vsame s (set_unbounded_in_send b s). Proof. repeat split. apply le_n. Qed.
+Lemma vsame_set_em l s : vsame s (set_emptied l s). Proof. repeat split. apply le_n. Qed.
+Lemma vsame_set_us b s : vsame s (set_unbounded_send b s). Proof. repeat split. apply le_n. Qed.
+Lemma vsame_add_fnres r b s : vsame s (add_fnres r b s). Proof. repeat split. apply le_n. Qed.
 
 
 Ltac vsame_tac :=
@@ -258,11 +274,11 @@ Proof.
   destruct a; cbn [is_interface_nil negb flat_map uses_expr app]; rewrite IH; reflexivity.
 Qed.
 
-Lemma vstep_fncall f s s' : check_fn_call_arity f s = Ok s' -> vstep (uses_fncall f) s s'.
+Lemma vstep_fncall f res s s' : check_fn_call_arity f res s = Ok s' -> vstep (uses_fncall f) s s'.
 Proof.
   unfold check_fn_call_arity, uses_fncall. rewrite <- (uses_filter_nil (fc_args f)).
   set (valid := filter (fun e => negb (is_interface_nil e)) (fc_args f)).
-  destruct (lookup_range (fc_caller_range f) (cs_fnres s)) as [b|].
+  destruct res as [b|].
   - intros H. match type of H with (bind ?m _) = _ => destruct m as [s1| |] eqn:E1 end; cbn [bind] in H; try discriminate.
     eapply vstep_same_l; [|exact (vstep_args _ _ _ _ H)].
     revert E1. destruct (_ <? _)%nat; [intros E1; injection E1 as <-; apply vsame_emit; reflexivity|].
@@ -279,7 +295,7 @@ Lemma vstep_statement st s s' : check_statement st s = Ok s' -> vstep (uses_stmt
 Proof.
   unfold check_statement. destruct st as [| |f|r sv src dst|r sv a]; cbn [uses_stmt]; intros H; try discriminate.
   - injection H as <-. apply vstep_of_same. vsame_tac.
-  - eapply vstep_same_l; [|exact (vstep_fncall _ _ _ H)].
+  - eapply vstep_same_l; [|exact (vstep_fncall _ _ _ _ H)].
     destruct (find_builtin (fc_caller f)) as [b|]; [destruct (b_ctx b)|]; vsame_tac.
   - destruct (check_sent_value sv _) as [s1| |] eqn:E1; cbn [bind] in H; try discriminate.
     destruct (check_source src s1) as [s2| |] eqn:E2; cbn [bind] in H; try discriminate.
@@ -448,14 +464,14 @@ Proof. induction l as [|x l IH]; cbn [filter]; [reflexivity|now rewrite IH]. Qed
 
 Lemma pstep_nil s s' : vsame s s' -> pstep [] s s'.
 Proof.
-  intros (A & B & C). unfold pstep, dkeys. rewrite !PU_udiags, !PD_udiags, !PN_udiags, A, B, C.
+  intros (A & B & C & _). unfold pstep, dkeys. rewrite !PU_udiags, !PD_udiags, !PN_udiags, A, B, C.
   cbn [unbound_uses duplicate_decls unused_decls declared_after fold_left used_later negb]. rewrite !app_nil_r, filter_true.
   repeat split; try (intros n; reflexivity).
 Qed.
 
 Lemma pstep_uses us s s' : vstep us s s' -> pstep (use_events us) s s'.
 Proof.
-  intros (A & B & C). unfold pstep, dkeys.
+  intros (A & B & C & _). unfold pstep, dkeys.
   rewrite !PU_udiags, !PD_udiags, !PN_udiags, A, B, C.
   rewrite unbound_diags_app, unbound_diags_unbd. unfold dup_diags, unused_diags. rewrite !flat_map_app.
   fold (dup_diags (unbd (unb s us))). fold (unused_diags (unbd (unb s us))). rewrite dup_diags_unbd, unused_diags_unbd, !app_nil_r.
@@ -517,16 +533,17 @@ Proof.
   unfold check_var_decl, events_decl. fold (header_events d).
   set (s1 := match vd_type d with Some (r, t) => if is_type_allowed t then s else emit r (DInvalidType t) s | None => s end).
   assert (H1 : vsame s s1) by (unfold s1; destruct (vd_type d) as [[r t]|]; vsame_tac).
-  fold (declare_name d s1).
+  intros H. match type of H with (bind ?m _) = _ => destruct m as [s3| |] eqn:E3 end; cbn [bind] in H; try discriminate.
+  injection H as <-. fold (declare_name d s3).
+  eapply pstep_same_l; [exact H1|]. eapply pstep_app; [|apply pstep_declare].
   destruct (vd_origin d) as [f|].
-  - intros H. match type of H with (bind ?m _) = _ => destruct m as [s3| |] eqn:E3 end; cbn [bind] in H; try discriminate.
-    fold (use_events (uses_fncall f)).
-    eapply pstep_same_l; [exact H1|]. eapply pstep_app; [apply pstep_declare|].
-    eapply pstep_same_l; [|exact (pstep_uses _ _ _ (vstep_fncall _ _ _ H))].
-    revert E3. destruct (find_builtin (fc_caller f)) as [b|]; [destruct (b_ctx b)|]; try (intros E3; injection E3 as <-; apply vsame_refl).
-    destruct (vd_name d) as [[rn nm]|]; [destruct (vd_type d) as [[rt ty]|]|]; try (intros E3; injection E3 as <-; vsame_tac).
-    intros E3. eapply vsame_trans; [apply vsame_add_fnres|exact (vsame_assert _ _ _ _ _ E3)].
-  - intros H. injection H as <-. rewrite app_nil_r. eapply pstep_same_l; [exact H1|apply pstep_declare].
+  - fold (use_events (uses_fncall f)).
+    match type of E3 with (bind ?m _) = _ => destruct m as [s2| |] eqn:E2 end; cbn [bind] in E3; try discriminate.
+    eapply pstep_same_l; [|exact (pstep_uses _ _ _ (vstep_fncall _ _ _ _ E3))].
+    revert E2. destruct (find_builtin (fc_caller f)) as [b|]; [destruct (b_ctx b)|]; try (intros E2; injection E2 as <-; apply vsame_refl).
+    destruct (vd_name d) as [[rn nm]|]; [destruct (vd_type d) as [[rt ty]|]|]; try (intros E2; injection E2 as <-; vsame_tac).
+    intros E2. eapply vsame_trans; [apply vsame_add_fnres|exact (vsame_assert _ _ _ _ _ E2)].
+  - injection E3 as <-. apply pstep_nil, vsame_refl.
 Qed.
 
 Lemma pstep_var_decls : forall ds s s', check_var_decls ds s = Ok s' -> pstep (flat_map events_decl ds) s s'.
